@@ -41,10 +41,11 @@ class Boom(Exception):
 
 # --------------------------------------------------------------------------- template generator
 class G36:
-    def __init__(self, rng):
+    def __init__(self, rng, filter_gens=False):
         self.r = rng
         self.aux = {}
         self.n = 0
+        self.filter_gens = filter_gens      # also loops over the async generators the map / select / reject filters return
 
     def atom(self):
         return self.r.choice(["T", "{{ f() }}", "{{ af() }}", "{{ f() }}{{ af() }}", "u", "{{ x|default('') }}"])
@@ -62,6 +63,10 @@ class G36:
                 out += "{% for x in xs if " + test + " %}" + ext + self.body(d - 1) + "{% endfor %}"
             elif k < 0.56:
                 out += "{% for x in xs %}" + self.body(d - 1) + "{% endfor %}"
+            elif k < 0.62 and self.filter_gens:
+                flt = r.choice(["select('odd')", "reject('odd')", "map('string')", "select", "map('abs')|select('odd')"])
+                ext = r.choice(["", "{{ loop.index }}"])
+                out += "{% for x in xs|" + flt + " %}" + ext + self.body(d - 1) + "{% endfor %}"
             elif k < 0.64:
                 out += ("{% for n in tree if n.v recursive %}{{ n.v }}" + self.atom() + "{% if n.c %}{{ loop(n.c) }}{% endif %}"
                         + "{% endfor %}")
@@ -114,6 +119,9 @@ FIXED = [
     {"main.html": "a{% for x in xs if x %}[{{ x }}{{ f() }}{{ af() }}]{% include 'i.html' %}{% endfor %}z", "i.html": "I{{ f() }}"},
     {"main.html": "{% extends 'base.html' %}{% block b0 %}{% for x in xs if x and af() %}{{ loop.index }}{{ f() }}{% endfor %}{{ super() }}{% endblock %}",
      "base.html": "B{% block b0 %}{{ f() }}{% endblock %}{{ self.b0() }}E"},
+    # generators made by filters, as loop iterable and under |first (known findings C36-F2 / C36-F3)
+    {"main.html": "{% for x in xs|select('odd') %}{{ af() }}{{ x }}{{ f() }}{% endfor %}|{% for x in xs|map('string') %}{{ loop.index }}{{ af() }}{% endfor %}"},
+    {"main.html": "a{{ xs|select('odd')|first }}b{{ f() }}"},
     {"main.html": "{% for n in tree if n.v recursive %}{{ n.v }}{{ f() }}{% if n.c %}{{ loop(n.c) }}{% endif %}{% endfor %}"
                   "{% macro m() %}{% for x in xs if x %}{{ af() }}{{ caller() }}{% endfor %}{% endmacro %}{% call m() %}c{{ f() }}{% endcall %}"},
 ]
@@ -202,8 +210,22 @@ class Tracker:
     def firstiter(self, g):
         code = g.ag_code
         key = self._key(code)
+        fn = os.path.realpath(code.co_filename) if os.path.isabs(code.co_filename) else code.co_filename
+        if fn == os.path.join(self.src_dir, "filters.py"):
+            # an async generator made by a filter (map / select / reject family): element-yielding, never closed by its
+            # consumer (auto_aiter / AsyncLoopContext / do_first): an unguarded side child of the frame that consumes it
+            f = sys._getframe(1)
+            owner = None
+            while f is not None:
+                if self._key(f.f_code) in self.templates:
+                    owner = f
+                    break
+                f = f.f_back
+            self.entries.append({"gen": g, "kind": "side", "guarded": False, "owner": owner, "name": "filter:" + code.co_name,
+                                 "how": "filter generator"})
+            return
         if key is None or (key not in self.templates and code.co_name != "generate_async"):
-            self.other += 1          # a data / filter generator: outside the claim
+            self.other += 1          # a data generator: outside the claim
             return
         f = sys._getframe(1)
         site, owner = None, None
@@ -338,7 +360,8 @@ def run(ctx):
     ctx.assumptions += [
         "CPython async generator semantics as modelled: a frame left by an exception is finished; aclose() throws "
         "GeneratorExit at the suspension point; an async comprehension has no body in which the consumer could fail",
-        "generators created by filters (map / select / reject / ...) and by data are outside the claim (counted as `other`)",
+        "generators created by filters (map / select / reject family) are tracked as unguarded element-yielding children: "
+        "their leaks are predicted by the model and reported as known findings; generators provided by data are outside the claim",
         "the event loop, GC-driven finalisation and the warnings machinery are runtime (observed, not modelled)",
     ]
     ctx.proof("C36")
@@ -346,10 +369,10 @@ def run(ctx):
     loop = asyncio.new_event_loop()
     all_sites = {}
     pending = []
-    n_sets = ctx.size(220, 1500)
+    n_sets = ctx.size(220, 1000)
     try:
         for ti in range(n_sets):
-            ts = FIXED[ti] if ti < len(FIXED) else G36(ctx.rng).template_set()
+            ts = FIXED[ti] if ti < len(FIXED) else G36(ctx.rng, filter_gens=(ti % 4 == 3)).template_set()
             clean = run_op(jinja2, loop, ts, src_dir, "complete", 0, "generate_async")
             for s in clean["sites"]:
                 all_sites[(ts["main.html"], s["file"], s["line"], s["text"])] = s
@@ -405,9 +428,15 @@ def judge(ctx, ts, op, k, entry, r, pending):
     if real or r["warnings"] or r["finalized"]:
         what = sorted(set(n.split("/")[0] + "/" + n.split("/")[1] for n in r["leaked"])) or ["warning"]
         sig = f"generator left open after {op}: " + ",".join(what)
-        ctx.reject(dict(case, leaked=r["leaked"], warnings=r["warnings"][:3], finalized=r["finalized"]),
-                   f"{real} engine generator(s) still open when the task ended ({', '.join(r['leaked'])}); "
-                   f"warnings={r['warnings'][:2]} finalizer calls={r['finalized']}", sig)
+        sigs = [sig]
+        if r["leaked"] and all(n.startswith("filter:") for n in r["leaked"]) and not r["warnings"] and not r["finalized"]:
+            # only generators made by filters are open: one finding per generator function
+            sigs = ["filter generator left open: " + nm for nm in sorted(set(n.split("/")[0][7:] for n in r["leaked"]))]
+            sig = sigs[0]
+        for sg in sigs:
+            ctx.reject(dict(case, leaked=r["leaked"], warnings=r["warnings"][:3], finalized=r["finalized"]),
+                       f"{real} engine generator(s) still open when the task ended ({', '.join(r['leaked'])}); "
+                       f"warnings={r['warnings'][:2]} finalizer calls={r['finalized']}", sg)
     if fired:
         direction = "down" if op == "stop" else "up"
         case2 = dict(case, live=cfg["names"], signature=sig)
